@@ -190,6 +190,28 @@ func genC15(g *Rng, tier string, emit func(Op)) {
 			}
 		}
 	}
+	// "differs whenever any integer differs", at the level of proofs: the group elements a proof
+	// carries enter the hash as the integers they are, not as residues - moved by multiples of the
+	// modulus they are other integers
+	{
+		kp := fixedKey("k1024a", false)
+		for _, spec := range []builderSpec{{kp: kp, issuance: true}, {kp: kp}} {
+			ses := buildSession(g, []builderSpec{spec}, randSecret(g), false)
+			name := "A"
+			if spec.issuance {
+				name = "U"
+			}
+			for _, k := range []int64{1, 2, 1 << 40} {
+				t2 := cloneTree(any(ses.trees)).([]any)
+				el := leafInt(t2[0], []any{name})
+				if el == nil {
+					continue
+				}
+				t2[0].(T)[name] = I(new(big.Int).Add(el, new(big.Int).Mul(bi(k), kp.pk.N)))
+				emit(listOp(ses.keys, t2, ses.ctx, ses.nonce, false, nil, "group-element-plus-multiple-of-N-"+name, "reject").with("fkey", "C15/group-element-residue"))
+			}
+		}
+	}
 	// the integers in order: a proof with range statements on several hidden attributes contributes
 	// their commitments in ascending attribute order, on the prover's and on the verifier's side, every time
 	{
